@@ -71,6 +71,10 @@ def make_target():
             self.j.append(k)
             x = ZeroDivisionError("failafter")
             x.after = k
+            if TBTEXT[0]:
+                # the exception itself is clean, but its cause's text (a file name that is not valid unicode) is part of the
+                # traceback that travels with it
+                raise x from OSError("cannot read caf\udce9.txt")
             raise x
 
         def unexposed(self):
@@ -133,6 +137,7 @@ def apperror_to_dict(x):
 
 def apperror_from_dict(classname, d):
     return AppError(*d["a"], code=d["code"])
+TBTEXT = [False]     # the append-then-raise member's exception has a cause whose text not every serializer can write
 UNSER = [False]      # the raising member's exception carries something no serializer can write
 
 
@@ -232,6 +237,7 @@ def run_cases(cases, servertype):
             ser = case["ser"]
             UNSER[0] = bool(case.get("unser"))
             APPERR[0] = not UNSER[0] and case_no % 3 == 1
+            TBTEXT[0] = case_no % 2 == 0
             tr = {"calls": case["calls"], "pre": case["pre"], "oneway": case["oneway"], "hang": False, "ser": ser, "drain": case["drain"]}
             pa = pb = pr = None
             try:
@@ -325,6 +331,7 @@ def run_cases(cases, servertype):
         memnet.run(main, max_steps=50000000)
     finally:
         APPERR[0] = False
+        TBTEXT[0] = False
         _ser.SerializerBase.unregister_class_to_dict(AppError)
         _ser.SerializerBase.unregister_dict_to_class("harness.c11.AppError")
     if len(traces) < len(cases):
